@@ -34,6 +34,7 @@ struct Machine {
     // model state
     unsigned mask = 0; int cur = 0; unsigned opt = deps::OPT_ALL;
     std::optional<model::Seed> slot[NSLOTS]; polyseed_data* ptr[NSLOTS] = {nullptr, nullptr, nullptr, nullptr};
+    bool owned[NSLOTS] = {false, false, false, false};   /* the block of this slot was handed out by the current injected allocator (false: libc block that survived a re-injection) */
     uint64_t armed = 0; uint64_t step_no = 0; uint64_t rand_ctr = 1;
     // evidence
     std::map<std::string, uint64_t> cls; bool saw_crypt_then_use = false, saw_reinject = false, saw_failed_ctor = false, saw_alloc_fail = false; int max_live = 0; bool crypted[NSLOTS] = {false, false, false, false};
@@ -44,6 +45,7 @@ struct Machine {
     bool ledger_active() const { return (opt & deps::OPT_ALLOC) && (opt & deps::OPT_FREE); }
     bool free_injected() const { return opt & deps::OPT_FREE; }
     int live_count() const { int n = 0; for (int i = 0; i < NSLOTS; i++) if (ptr[i]) n++; return n; }
+    int owned_count() const { int n = 0; for (int i = 0; i < NSLOTS; i++) if (ptr[i] && owned[i]) n++; return n; }
     int pick_live(int j) const { for (int d = 0; d < NSLOTS; d++) if (ptr[(j + d) % NSLOTS]) return (j + d) % NSLOTS; return j % NSLOTS; } // arguments refer to live slots whenever one exists
 
     std::vector<std::string>* log = nullptr;   // optional transcript (C20, C15)
@@ -71,8 +73,8 @@ struct Machine {
         }
         if (fl.check_ledger && ledger_active()) {
             if (!K().ledger_errors.empty()) return std::string("after ") + what + ": " + K().ledger_errors[0];
-            if ((int)K().live.size() != live_count()) return std::string("after ") + what + ": " + std::to_string(K().live.size()) + " blocks are allocated but " + std::to_string(live_count()) + " seeds are live";
-            for (int i = 0; i < NSLOTS; i++) if (ptr[i] && !K().live.count(ptr[i])) return std::string("after ") + what + ": a live seed is not a block of the injected allocator";
+            if ((int)K().live.size() != owned_count()) return std::string("after ") + what + ": " + std::to_string(K().live.size()) + " blocks are allocated but " + std::to_string(owned_count()) + " seeds are live";
+            for (int i = 0; i < NSLOTS; i++) if (ptr[i] && owned[i] && !K().live.count(ptr[i])) return std::string("after ") + what + ": a live seed is not a block of the injected allocator";
         }
         if (fl.check_ledger && !Other().ledger_errors.empty()) return std::string("after ") + what + ": (other set) " + Other().ledger_errors[0];
         if (fl.check_routing && Other().dep_calls() != other_before) return std::string("after ") + what + ": a dependency of the set that is no longer injected was called";
@@ -99,11 +101,13 @@ struct Machine {
         switch (o.code) {
         case INJECT: {
             if (!fl.allow_inject) break;
-            for (int i = 0; i < NSLOTS; i++) release(i);   // seeds belong to the allocator they came from
+            bool keep = !alloc_injected() && !(o.c & 1);      // blocks from libc malloc may legitimately outlive a re-injection: they are released by whatever free is current then
+            if (!keep) for (int i = 0; i < NSLOTS; i++) release(i);   // otherwise seeds belong to the allocator they came from
+            else if (live_count()) { cls["inject:seeds-kept-across-re-injection"]++; for (int i = 0; i < NSLOTS; i++) owned[i] = false; }
             int set = o.a & 1; unsigned op = (o.b & 7u);
             if (!wr.enabled && !(op & deps::OPT_TIME)) op |= deps::OPT_TIME; // without interposition the libc clock cannot be predicted
             deps::inject(set, op); if (set != cur) saw_reinject = true; cur = set; opt = op;
-            K().foreign_ok = !(op & deps::OPT_ALLOC); K().track = (op & deps::OPT_ALLOC) && (op & deps::OPT_FREE);
+            K().foreign_ok = !(op & deps::OPT_ALLOC) || (keep && live_count() > 0); K().track = (op & deps::OPT_ALLOC) && (op & deps::OPT_FREE);
             other_before = Other().dep_calls();
             cls[std::string("inject:opt=") + std::to_string(op)]++;
         } break;
@@ -114,17 +118,18 @@ struct Machine {
         } break;
         case CREATE: {
             int i = o.b % NSLOTS; release(i); std::vector<uint8_t> rnd; fresh_random(rnd); if (o.c & 1) rnd[18] |= 0xC0;
+            if ((o.b & 0xF0) == 0xA0) rnd.assign(19, (o.b & 4) ? 0xFF : 0x00);   // degenerate but legal random-source outputs
             k.rand_bytes = rnd; k.rand_pos = 0; k.rand_calls.clear(); k.rand_total = 0; k.time_calls = 0;
             uint64_t t = model::EPOCH + (uint64_t)(o.c) * 7 * model::STEP / 2 + o.a * 1000; if ((o.c & 7) == 7) t = (o.c & 8) ? UINT64_MAX : 12345; else if ((o.c & 15) == 11) t = model::EPOCH + (1024 + (uint64_t)o.a * 5) * model::STEP + o.b; /* beyond the 1024-month range */ k.clock = t;
             unsigned f = (o.a & 7u); if (o.a & 0x30) f &= mask;            // model-guided: three times out of four ask only for enabled features
             f |= ((o.a & 8u) ? 0xFFFFFFE0u : 0u);
-            if (wr.enabled) { wr.malloc_calls = wr.time_calls = wr.free_calls = 0; wr.window = true; }
-            arm_now(); polyseed_data* s = nullptr; int st = (int)polyseed_create(f, &s); k.disarm(); if (wr.enabled) wr.window = false;
+            if (wr.enabled) { wr.malloc_calls = wr.time_calls = wr.free_calls = 0; wr.window = true; wr.fake = !(opt & deps::OPT_TIME); wr.fake_time = t; }   // no clock injected: the interposed libc time() delivers t
+            arm_now(); polyseed_data* s = nullptr; int st = (int)polyseed_create(f, &s); k.disarm(); if (wr.enabled) { wr.window = false; wr.fake = false; }
             bool supported = ((f & 7u) & ~mask) == 0;
-            if (st == 0) { ptr[i] = s; model::Seed m; memcpy(m.secret.data(), rnd.data(), 19); m.secret[18] &= 0x3F; m.features = f & 7u;
+            if (st == 0) { ptr[i] = s; owned[i] = true; model::Seed m; memcpy(m.secret.data(), rnd.data(), 19); m.secret[18] &= 0x3F; m.features = f & 7u;
                 bool beyond = t != UINT64_MAX && t >= model::EPOCH + 1024 * model::STEP;
                 if ((opt & deps::OPT_TIME) && beyond) { lib::Image img = lib::store(s); m.birthday = (img[8] | (img[9] << 8)) & 1023u; /* no property fixes the month beyond the range: adopt it, everything else is still compared */ }
-                else if (opt & deps::OPT_TIME) m.birthday = model::birthday_index(t); else { unsigned b = model::birthday_index((uint64_t)time(nullptr)); m.birthday = b; lib::Image img = lib::store(s); unsigned v = img[8] | (img[9] << 8); if ((v & 1023u) + 1 == b || (v & 1023u) == b + 1) m.birthday = v & 1023u; }
+                else if ((opt & deps::OPT_TIME) || wr.enabled) m.birthday = (t != UINT64_MAX && t >= model::EPOCH + 1024 * model::STEP) ? ((lib::store(s)[8] | (lib::store(s)[9] << 8)) & 1023u) : model::birthday_index(t); else { unsigned b = model::birthday_index((uint64_t)time(nullptr)); m.birthday = b; lib::Image img = lib::store(s); unsigned v = img[8] | (img[9] << 8); if ((v & 1023u) + 1 == b || (v & 1023u) == b + 1) m.birthday = v & 1023u; }
                 slot[i] = m; }
             if (fl.check_model) {
                 int expect = !supported ? model::UNSUPPORTED : observed_fail() ? model::MEMORY : model::OK;
@@ -145,11 +150,11 @@ struct Machine {
         case LOAD: {
             int j = pick_live(o.a), i = o.b % NSLOTS; lib::Image img; int kind = o.c % 6;
             model::Seed src = slot[j] ? *slot[j] : model::Seed(); img = model::image(src);
-            if (kind == 1) img[30] ^= 1; else if (kind == 2) img[0] ^= 0x20; else if (kind == 3) { src.features |= 8; img = model::image(src); } else if (kind == 4) img[28] |= 0x80; else if (kind == 5) { model::Seed z; z.features = (o.c >> 3) & 7u; z.birthday = o.c; img = model::image(z); src = z; }
+            if (kind == 1) img[30] ^= 1; else if (kind == 2) img[0] ^= 0x20; else if (kind == 3) { src.features |= 8; img = model::image(src); } else if (kind == 4) img[28] |= 0x80; else if (kind == 5) { model::Seed z; z.features = (o.c >> 3) & 7u; z.birthday = (o.c == 5) ? 0 : o.c; img = model::image(z); src = z; }   // o.c == 5: the all-zero seed (valid: zero secret, month 0, no features, check value 0)
             release(i);
             polyseed_data* s = nullptr; if (wr.enabled) { wr.malloc_calls = wr.free_calls = 0; wr.window = true; } arm_now(); int st = (int)polyseed_load(img.data(), &s); k.disarm(); if (wr.enabled) wr.window = false;
             model::Seed ms; int expect = model::load_verdict(img.data(), mask, &ms);
-            if (st == 0) { ptr[i] = s; slot[i] = (expect == 0) ? ms : model::Seed(); }
+            if (st == 0) { ptr[i] = s; owned[i] = true; slot[i] = (expect == 0) ? ms : model::Seed(); }
             if (observed_fail()) { saw_alloc_fail = true; if (st != model::MEMORY) err = std::string("the allocator failed during load but the status is ") + model::status_name(st); }
             else if (fl.check_model && st != expect) err = std::string("load returned ") + model::status_name(st) + ", model says " + model::status_name(expect) + " for " + vf::hex(img.data(), 32) + " under mask " + std::to_string(mask);
             else if (!fl.check_model && st == 0 && expect != 0) slot[i] = lib::abstract(s);
@@ -186,7 +191,7 @@ struct Machine {
             release(i);
             polyseed_data* s = nullptr; const polyseed_lang* lo = nullptr; if (wr.enabled) { wr.malloc_calls = wr.free_calls = 0; wr.window = true; }
             arm_now(); int st = expl ? (int)polyseed_decode_explicit(phrase.c_str(), (polyseed_coin)B, use, &s) : (int)polyseed_decode(phrase.c_str(), (polyseed_coin)B, &lo, &s); k.disarm(); if (wr.enabled) wr.window = false;
-            if (st == 0) { ptr[i] = s; slot[i] = (expect == model::OK) ? src : lib::abstract(s); }
+            if (st == 0) { ptr[i] = s; owned[i] = true; slot[i] = (expect == model::OK) ? src : lib::abstract(s); }
             if (observed_fail()) { saw_alloc_fail = true; if (st != model::MEMORY) err = std::string("the allocator failed during ") + what + " but the status is " + model::status_name(st); else if (fl.check_model && expect != model::OK && expect != model::UNSUPPORTED && expect != -1) err = std::string(what) + ": allocation attempted although the outcome must be " + model::status_name(expect); }
             else if (fl.check_model && expect >= 0 && st != expect) err = std::string(what) + " returned " + model::status_name(st) + ", model says " + model::status_name(expect) + " (phrase kind " + std::to_string(kind) + ", language " + le.name_en + ", coins " + std::to_string(A) + "/" + std::to_string(B) + ", mask " + std::to_string(mask) + ")";
             else if (fl.check_model && st == 0 && !expl && lo != le.lang) err = "decode reported another language than the phrase was encoded in";
@@ -194,7 +199,7 @@ struct Machine {
         } break;
         case CRYPT: {
             int i = pick_live(o.a); if (!ptr[i]) break; const char* pw = PASSWORDS[o.b % 6]; size_t n0 = k.kdf.size();
-            polyseed_crypt(ptr[i], pw);
+            arm_now(); polyseed_crypt(ptr[i], pw); k.disarm();
             if (k.kdf.size() != n0 + 1) { err = "crypt did not call the current KDF exactly once"; break; }
             const deps::KdfCall& kc = k.kdf.back(); std::string pwn = model::nfkd(pw); auto salt = model::crypt_salt();
             if (fl.check_model && (kc.pwlen != pwn.size() || std::string(kc.pw.begin(), kc.pw.end()) != pwn || kc.saltlen != 16 || memcmp(kc.salt.data(), salt.data(), 16) != 0 || kc.iterations != 10000 || kc.keylen != 32)) { err = "crypt passed wrong arguments to the KDF: " + lib::kdf_str(kc); break; }
@@ -202,14 +207,14 @@ struct Machine {
         } break;
         case ENCODE: {
             int i = pick_live(o.a); if (!ptr[i]) break; const lib::LangEntry& le = REG.at(o.b % REG.size()); unsigned coin = (unsigned)(o.c * 8 + (o.b & 7)) & 2047u;
-            size_t ret = 0; std::string ph = lib::encode(ptr[i], le.lang, coin, &ret); if (crypted[i]) saw_crypt_then_use = true;
+            arm_now(); size_t ret = 0; std::string ph = lib::encode(ptr[i], le.lang, coin, &ret); k.disarm(); if (crypted[i]) saw_crypt_then_use = true;
             if (ret != ph.size()) { err = "encode returned a length different from strlen"; break; }
             if (fl.check_model && le.golden) { std::string mp = model::phrase(*le.golden, *slot[i], coin); if (mp != ph) err = "encode output [" + ph + "] differs from the model phrase [" + mp + "] for " + slot[i]->describe(); }
         } break;
         case STORE: { int i = pick_live(o.a); if (!ptr[i]) break; if (crypted[i]) saw_crypt_then_use = true; /* compared in invariants() */ } break;
         case KEYGEN: {
             int i = pick_live(o.a); if (!ptr[i]) break; unsigned coin = (unsigned)(o.b * 8 + 3) & 2047u; static const size_t KS[6] = {32, 16, 64, 1, 0, 33}; size_t ks = KS[o.c % 6]; std::vector<uint8_t> key(ks + 1, 0x4B);
-            size_t n0 = k.kdf.size(); polyseed_keygen(ptr[i], (polyseed_coin)coin, ks, key.data());
+            size_t n0 = k.kdf.size(); arm_now(); polyseed_keygen(ptr[i], (polyseed_coin)coin, ks, key.data()); k.disarm();
             if (k.kdf.size() != n0 + 1) { err = "keygen did not call the current KDF exactly once"; break; }
             const deps::KdfCall& kc = k.kdf.back(); auto pw = model::keygen_password(*slot[i]); auto salt = model::keygen_salt(*slot[i], coin);
             if (fl.check_model && (kc.pwlen != 32 || memcmp(kc.pw.data(), pw.data(), 32) != 0 || kc.saltlen != 32 || memcmp(kc.salt.data(), salt.data(), 32) != 0 || kc.iterations != 10000 || kc.key != key.data() || kc.keylen != ks)) err = "keygen passed wrong arguments to the KDF: " + lib::kdf_str(kc) + " for " + slot[i]->describe() + " coin " + std::to_string(coin);
@@ -222,13 +227,13 @@ struct Machine {
             else if (polyseed_is_encrypted(ptr[i]) != (int)((m.features >> 4) & 1)) err = "is_encrypted differs from the model";
         } break;
         case FREE: {
-            int i = o.a % NSLOTS; if (!ptr[i]) break; size_t f0 = k.freed.size(); uint64_t fc0 = k.free_calls; polyseed_data* p = ptr[i];
+            int i = o.a % NSLOTS; if (!ptr[i]) break; size_t f0 = k.freed.size(); uint64_t fc0 = k.free_calls; polyseed_data* p = ptr[i]; bool mine = owned[i];
             if (wr.enabled) { wr.free_calls = wr.malloc_calls = 0; wr.window = true; } polyseed_free(p); if (wr.enabled) wr.window = false;
             ptr[i] = nullptr; slot[i].reset(); crypted[i] = false;
             if (free_injected() && fl.check_ledger) {
                 if (k.free_calls != fc0 + 1) err = "free(seed) called the injected free " + std::to_string(k.free_calls - fc0) + " times";
-                else if (ledger_active() && (k.freed.size() != f0 + 1 || k.freed.back().ptr != p)) err = "free(seed) did not return the seed's block to the injected free";
-                else if (ledger_active() && fl.check_routing) { bool zero = true; for (uint8_t b : k.freed.back().content) if (b) zero = false; if (!zero) err = "the seed block was not wiped before it was released"; }
+                else if (ledger_active() && mine && (k.freed.size() != f0 + 1 || k.freed.back().ptr != p)) err = "free(seed) did not return the seed's block to the injected free";
+                else if (ledger_active() && mine && fl.check_routing) { bool zero = true; for (uint8_t b : k.freed.back().content) if (b) zero = false; if (!zero) err = "the seed block was not wiped before it was released"; }
             }
             if (err.empty() && wr.enabled && fl.check_routing) { if (free_injected() && wr.free_calls) err = "free(seed) called libc free although a free function is injected"; else if (!free_injected() && !wr.free_calls) err = "no free function injected but free(seed) did not call libc free"; }
         } break;
